@@ -100,7 +100,10 @@ pub fn c02_seven() {
     let w = any_seven();
     s5::install(&w, true);
     let h = Seven::from(w);
+    // the value-only entry point first, on the same hand: a stash left by it must not change what follows
+    let v0 = h.hand_rank_value();
     let (v, hand) = h.hand_rank_value_and_hand();
+    check!(v0 == v, "hand_rank_value agrees with the value half, called first");
     check!(v == min_over_subsets(&w), "seven-card value is the smallest value over ALL 21 five-card subsets");
     check!(v >= 1 && v <= 7462, "value in range");
     check_witness(&w, v, hand);
@@ -119,7 +122,9 @@ pub fn c02_six() {
     let w = [w7[0], w7[1], w7[2], w7[3], w7[4], w7[5]];
     s5::install(&w, true);
     let h = Six::from(w);
+    let v0 = h.hand_rank_value();
     let (v, hand) = h.hand_rank_value_and_hand();
+    check!(v0 == v, "hand_rank_value agrees with the value half, called first");
     check!(v == min_over_subsets(&w), "six-card value is the smallest value over ALL 6 five-card subsets");
     check!(v >= 1 && v <= 7462, "value in range");
     check_witness(&w, v, hand);
@@ -445,53 +450,86 @@ pub fn c09_six_vs_five() {
 /// Solver side: the primitive is an arbitrary function of the hand (wiring stub with two expectations), so any
 /// state kept above it is exposed; native side: the reference is the best five-card value over all subsets, and a
 /// family of all ordered pairs of six/seven-card hands from a small two-suit pool is run as well.
+fn xor_all<const N: usize>(w: &[u32; N]) -> u32 {
+    let mut x = 0;
+    let mut i = 0;
+    while i < N {
+        x ^= w[i];
+        i += 1;
+    }
+    x
+}
+
 macro_rules! history {
     ($name:ident, $ty:ty, $n:expr, $stub:path, $unw:expr, $pool:expr) => {
         #[cfg_attr(kani, kani::proof)]
         #[cfg_attr(kani, kani::unwind($unw))]
         #[cfg_attr(kani, kani::stub(<$ty as ckc_rs::cards::HandRanker>::hand_rank_value_and_hand, $stub))]
         pub fn $name() {
-            let c0 = any_seven();
-            let c1 = any_seven();
-            let mut w0 = [0u32; $n];
-            let mut w1 = [0u32; $n];
-            let mut i = 0;
-            while i < $n {
-                w0[i] = c0[i];
-                w1[i] = c1[i];
-                i += 1;
+            // four hands; hands 0..2 are ranked first (every entry point), hand 3 is checked.  Any of them may be
+            // equal (X, Y, X, X and X, Y, X, Y patterns included), each is seven distinct cards cut to the hand size.
+            let mut w = [[0u32; $n]; 4];
+            let mut fv = [0u16; 4];
+            let mut k = 0;
+            while k < 4 {
+                let c = any_seven();
+                let mut i = 0;
+                while i < $n {
+                    w[k][i] = c[i];
+                    i += 1;
+                }
+                fv[k] = sym::u16();
+                sym::assume(fv[k] >= 1 && fv[k] <= 7462);
+                k += 1;
             }
-            let fv0 = sym::u16();
-            let fv1 = sym::u16();
-            sym::assume(fv0 >= 1 && fv0 <= 7462 && fv1 >= 1 && fv1 <= 7462);
-            crate::wiring::expect2(&w0, fv0, [w0[0], w0[1], w0[2], w0[3], w0[4]], &w1, fv1, [w1[0], w1[1], w1[2], w1[3], w1[4]]);
-            let (h0, h1) = (<$ty>::from(w0), <$ty>::from(w1));
-            // exercise every entry point on the first hand
-            let _ = h0.hand_rank_value();
-            let _ = h0.hand_rank_value_and_hand();
-            let _ = h0.hand_rank_value_validated();
-            let _ = h0.hand_rank();
-            // the second hand must be ranked from its own cards
+            // the abstract primitive is a function: equal hands have equal values
+            let mut k = 0;
+            while k < 4 {
+                let mut j = 0;
+                while j < k {
+                    sym::assume(!sym::same(w[j], w[k]) || fv[j] == fv[k]);
+                    j += 1;
+                }
+                k += 1;
+            }
+            crate::wiring::begin(4);
+            let mut k = 0;
+            while k < 4 {
+                crate::wiring::expect_k(k, &w[k], fv[k], [w[k][0], w[k][1], w[k][2], w[k][3], w[k][4]]);
+                k += 1;
+            }
+            let mut k = 0;
+            while k < 3 {
+                let h = <$ty>::from(w[k]);
+                let _ = h.hand_rank_value();
+                let _ = h.hand_rank_value_and_hand();
+                let _ = h.hand_rank_value_validated();
+                let _ = h.hand_rank();
+                k += 1;
+            }
+            let h3 = <$ty>::from(w[3]);
             #[cfg(kani)]
-            let want = if sym::same(w0, w1) { fv0 } else { fv1 };
+            let want = fv[3];
             #[cfg(not(kani))]
-            let want = history_reference(&w1);
-            check!(h1.hand_rank_value() == want, "hand_rank_value after ranking another hand is the hand's own value");
-            check!(h1.hand_rank_value_and_hand().0 == want, "hand_rank_value_and_hand after ranking another hand");
-            check!(h1.hand_rank_value_validated() == want, "hand_rank_value_validated after ranking another hand");
-            check!(h1.hand_rank().value == want, "hand_rank after ranking another hand");
+            let want = history_reference(&w[3]);
+            check!(h3.hand_rank_value() == want, "hand_rank_value after ranking other hands is the hand's own value");
+            check!(h3.hand_rank_value_and_hand().0 == want, "hand_rank_value_and_hand after ranking other hands");
+            check!(h3.hand_rank_value_validated() == want, "hand_rank_value_validated after ranking other hands");
+            check!(h3.hand_rank().value == want, "hand_rank after ranking other hands");
             #[cfg(not(kani))]
             history_family::<$n>($pool, |a| {
                 let h = <$ty>::from(a);
                 [h.hand_rank_value(), h.hand_rank_value_and_hand().0, h.hand_rank_value_validated(), h.hand_rank().value]
             });
-            cover!(!sym::same(w0, w1) && fv0 != fv1, "two different hands with different values");
-            cover!((w0[0] ^ w0[1] ^ w0[2] ^ w0[3] ^ w0[4] ^ w0[5]) == (w1[0] ^ w1[1] ^ w1[2] ^ w1[3] ^ w1[4] ^ w1[5]) && !sym::same(w0, w1), "different hands with the same XOR signature");
+            cover!(sym::same(w[0], w[2]) && sym::same(w[0], w[3]) && !sym::same(w[0], w[1]) && fv[0] != fv[1], "the pattern X, Y, X, X");
+            cover!(!sym::same(w[2], w[3]) && fv[2] != fv[3], "the last two hands differ");
+            cover!(xor_all(&w[2]) == xor_all(&w[3]) && !sym::same(w[2], w[3]), "different hands with the same XOR signature");
         }
     };
 }
 history!(c02_six_history, ckc_rs::cards::six::Six, 6, crate::wiring::stub_six, 9, 10);
 history!(c02_seven_history, ckc_rs::cards::seven::Seven, 7, crate::wiring::stub_seven, 9, 11);
+history!(c01_five_history, ckc_rs::cards::five::Five, 5, crate::wiring::stub_five, 9, 10);
 
 #[cfg(not(kani))]
 fn history_reference<const N: usize>(w: &[u32; N]) -> u16 {
@@ -530,10 +568,15 @@ fn history_family<const N: usize>(pool: usize, rank: impl Fn([u32; N]) -> [u16; 
         }
     }
     let refs: Vec<u16> = hands.iter().map(|h| history_reference(h)).collect();
-    for x in hands.iter() {
+    for (i, x) in hands.iter().enumerate() {
         for (j, y) in hands.iter().enumerate() {
             let _ = rank(*x);
             let got = rank(*y);
+            // and back: the pattern x, y, x (a two-entry cache shows on the third call)
+            if rank(*x).iter().any(|v| *v != refs[i]) {
+                crate::sym::native::fail("history family on the real code: x, y, x - the third call does not give x's own value");
+                return;
+            }
             if got.iter().any(|v| *v != refs[j]) {
                 use ckc_rs::PokerCard;
                 let d = |w: &[u32; N]| w.iter().map(|c| format!("{}{}", c.get_rank_char(), c.get_suit_letter())).collect::<Vec<_>>().join(" ");
